@@ -5,6 +5,16 @@ from pathlib import Path
 VERIF = Path(__file__).resolve().parent.parent
 
 CLAIMED = {
+    "C04": dict(
+        text="Lean theorems relating the emitted actuator blocks (Fw) to the host classes (Host): clamping of every PWM duty / servo command / motor speed for ARBITRARY "
+             "arguments and states; for every call the host accepts, equal shadow state (so all eight state queries agree), last pin level = image of the host state, "
+             "delays equal up to whole-ms rounding; RGB fade within one PWM count and equal off exact .5 ties; motor pins/duty as the image of the applied speed. "
+             "Firmware model tied bit-exactly (Float32) to the compiled emitted C++; host side tied by C19's H; per-pin timelines and getters of the real firmware are "
+             "compared with the real host classes on generated call sequences.",
+        note="Trusted: Lean kernel (propext, Classical.choice, Quot.sound); mock core + host g++ (Arduino PWM/Servo internals below the call boundary); exact-arithmetic "
+             "theorems (float32/float64 rounding via the bit-exact tie and a 1e-4 getter tolerance). Known findings K04a (fade half rounding), K04b (tiny motor speed), "
+             "K04c (fractional servo pulse bounds folded with int()).",
+        technique="Lean 4 refinement theorems Fw vs Host + bit-exact model/compiled-firmware correspondence (S_c) + timeline oracle", ref="4/C04"),
     "C12": dict(
         text="Theorems over the effect model of target() for every scenario (pair valid?, upload?, PlatformIO present?, Servo note?, 10 fault points), proved by kernel "
              "decide; the model is tied to the real target() by an exhaustive differential run of the whole scenario space x 5 scripts with subprocess/tempfile/pathlib "
@@ -35,6 +45,14 @@ CLAIMED = {
         note="Trusted: Lean kernel (propext, Classical.choice, Quot.sound); mock core + host g++; exact-arithmetic theorems (float32 rounding via the tie only); negative "
              "durations hit a C cast to unsigned and are outside the model. Known finding K16a (beep(times<=0) leaves an earlier tone sounding).",
         technique="Lean 4 theorems on the emitted-block model + regenerated score obligation + bit-exact correspondence (S_c)", ref="4/C16"),
+    "C17": dict(
+        text="Lean theorems for every geometry, text, alignment and clear flag with in-range row/column: write/line/message/clear leave exactly the host buffer in the "
+             "device cells, other rows untouched; every print stays inside its row on both sides; progress filled length is monotone, saturates, equals the host's on "
+             "exact multiples and differs by at most one cell; backlight pin = 0 when off / last brightness when on; glyph rows = the host's eight 5-bit rows. "
+             "Firmware model tied to the mock HD44780 cell matrix of the compiled sketch, host model to LCD.dump(); cells of the real firmware compared with the real host class.",
+        note="Trusted: Lean kernel (propext, Classical.choice, Quot.sound); mock LiquidCrystal cell matrix (no DDRAM wrapping) + host g++; ASCII text only. "
+             "Known finding K17a (message() on a one-row display writes row 1).",
+        technique="Lean 4 refinement theorems (device cells = host buffer) + model/implementation correspondence (S_c, H)", ref="4/C17"),
     "C19": dict(
         text="Invariants of Led/RGBLed/Servo/DCMotor proved in Lean for every call (any int/float/bool argument) and hence every call history by induction, atomic failure, "
              "fade/ramp end-points and monotonicity, sleep totals — over an arbitrary ordered field (exact arithmetic). The executable model (at IEEE double) is compared bit-exactly "
